@@ -575,6 +575,12 @@ func (t *sseClientTransport) sendRequestInternal(ctx context.Context, req *JSONR
 		t.responsesMu.Unlock()
 	}()
 
+	// The transport may have been closed between the check above and the registration; close()
+	// has then already swept the table and would never wake this call.
+	if t.closed.Load() {
+		return nil, errors.New("transport is closed")
+	}
+
 	// Send the HTTP request.
 	httpReq, err := http.NewRequestWithContext(ctx, http.MethodPost, t.endpoint.String(), bytes.NewReader(reqBytes))
 	if err != nil {
